@@ -21,7 +21,7 @@ from . import tlc, terms
 from .runner import main, Run
 
 EPS = 2.0 ** -52
-SAFETY = 10.0
+SAFETY = 30.0
 PERT = 64.0            # size of the relative perturbation of A, in ulp, used to measure sensitivity
 
 
@@ -63,6 +63,9 @@ def build(np, rng, st, even):
             a = q @ a @ np.linalg.inv(q)
     elif st == "uppertri":
         a = np.triu(rng.standard_normal((n, n)), 1) + np.diag(-rng.uniform(0.1, 2.0, n))
+    elif st == "diagonal":
+        ev = -np.array([1.0, 0.05, 0.0, 1e-3][:n]) * rng.uniform(0.5, 2.0)
+        a = np.diag(ev)
     elif st == "stiff":
         q = randq()
         ev = -np.array([1.0, 1e-2, 1e-4, 1e-6][:n]) if n == 4 else -np.array([1.0, 1e-3, 1e-6])
@@ -244,7 +247,7 @@ def expm_part(run, np, em, quick):
         h = (num / den) / np.abs(a).sum(axis=0).max()
         # only the product A h matters: the same problem is posed with a small matrix and a long step, or a large matrix and a
         # short one (||A|| alone must not decide anything)
-        sc_ = [1.0, 2.0 ** -10, 2.0 ** 10][int(rng.integers(3))]
+        sc_ = [1.0, 2.0 ** -10, 2.0 ** 10, 2.0 ** -30][int(rng.integers(4))]
         a, h = a * sc_, h / sc_
         mats[key] = (a, h)
         jobs.append((defs, a, h, num / den, run.seed + len(jobs)))
@@ -702,7 +705,7 @@ def body(run: Run, replay):
     from pyyeti import expmint as em
     from pyyeti.ssmodel import SSModel
     quick = run.tier == "quick"
-    run.rule = ("expmint/getEPQ: 8 structures (generic, singular, nilpotent index 2/3, Jordan, upper triangular, stiff, oscillator state matrix) x 12 "
+    run.rule = ("expmint/getEPQ: 9 structures (generic, singular, nilpotent index 2/3, Jordan, upper triangular, stiff, oscillator state matrix, exactly diagonal) x 12 "
                 "norm classes 1e-6..1e3 incl. both sides of the getEPQ switch x order x B x half x {getEPQ, getEPQ1, getEPQ2, getEPQ_pow} "
                 "against the series definitions evaluated at 40+0.9||Ah|| digits; branch/route events validated by TLC; SSModel: every "
                 "conversion history of length %d over 4 methods x prewarp on 4 system classes, discrete matrices vs terms, sampled "
